@@ -232,12 +232,17 @@ def gen_fields(rng, nmin=1, nmax=9, allow_repeat=False):
         # repeats together with a literal name equal to a generated key (x, x_2, x)
         base = names[0]
         pos = sorted(rng.sample(range(1, n), 2))
-        if rng.random() < 0.5:
+        r = rng.random()
+        if r < 0.35:
             names[pos[0]] = base + '_2'
             names[pos[1]] = base
-        else:
+        elif r < 0.7:
             names[pos[0]] = base
             names[pos[1]] = base + '_2'
+        else:
+            # another field merely BEGINS with the repeated name (rho, rhoE, rho)
+            names[pos[0]] = base + 'E'
+            names[pos[1]] = base
         if n >= 4 and rng.random() < 0.5:
             names[rng.choice([k for k in range(1, n) if k not in pos])] = base
     return names
